@@ -289,6 +289,35 @@ class Effects:
         # a unit that appends new trie node blocks (constructs a node with stem= and writes it) is foreign as well:
         # covered because the new node variable is not a parameter.
 
+    def must_write_param(self, ctx, t, pname):
+        """does callee t write back its node parameter `pname` on *every* path to its normal exit?"""
+        key = ('mwp', t, pname)
+        if key in ctx._cache:
+            return ctx._cache[key]
+        ctx._cache[key] = False        # recursion guard
+        from .cfg import solve_forward
+        from .dataflow import node_root, calls_in_order, bound_args
+        P = self.P
+        g = ctx.cfg(t)
+
+        def transfer(nd, st):
+            root = node_root(nd)
+            if root is None:
+                return st
+            for c in calls_in_order(P, t, root):
+                if recv_name(c) == pname and isinstance(c.func, ast.Attribute) and c.func.attr == 'write':
+                    st = True
+                for t2 in P.targets(c):
+                    if self.writes_param.get(t2):
+                        for pn, arg in bound_args(t2, c):
+                            if pn in self.writes_param[t2] and isinstance(arg, ast.Name) and arg.id == pname and self.must_write_param(ctx, t2, pn):
+                                st = True
+            return st
+        IN = solve_forward(g, False, transfer, lambda lab, st: st, lambda a, b: a and b)
+        res = all(transfer(p, IN.get(p.id, False)) for p, _ in g.exit.pred) and bool(g.exit.pred)
+        ctx._cache[key] = res
+        return res
+
     def _rebound(self, u, name):
         for n in self.P.own(u, (ast.Assign, ast.AugAssign, ast.For)):
             tgs = n.targets if isinstance(n, ast.Assign) else [n.target]
